@@ -136,10 +136,22 @@ func c10GenFailureMessage(t *rapid.T) ([]byte, []string) {
 			}
 			b = c10ref.AppendBigSizeWidth(b, v, w)
 		case "tlv":
-			if rapid.Bool().Draw(t, "withTlv") {
+			switch rapid.IntRange(0, 2).Draw(t, "withTlv") {
+			case 0:
+			case 1:
 				b = c10ref.AppendRecord(b, c10DrawUnknownType(t),
 					c10Bytes(t, rapid.SampledFrom([]int{0, 1, 4, 20, 240,
 						300}).Draw(t, "tN"), "tV"))
+			default:
+				// total length around the 256-byte packet payload
+				target := rapid.IntRange(250, 262).Draw(t, "target")
+				vlen := target - len(b) - 3 - 1
+				if vlen >= 0xfd {
+					vlen -= 2
+				}
+				b = c10ref.AppendRecord(b, c10DrawUnknownType(t),
+					c10Bytes(t, max(vlen, 0), "tV"))
+				labels = append(labels, "near-packet-size")
 			}
 		case "raw":
 			b = append(b, c10Bytes(t, rapid.IntRange(0, 64).Draw(t, "rN"),
